@@ -3,6 +3,7 @@ package scen
 import (
 	"bytes"
 	"context"
+	"crypto/ed25519"
 	"fmt"
 	"net"
 	"reflect"
@@ -168,6 +169,9 @@ func c19(r *Run) {
 	for i := 0; i < 4 && i < np; i++ {
 		starting = append(starting, dht.NewAddr(pop.Peers[r.Rng.Intn(np)].Addr))
 	}
+	pub, priv, _ := ed25519.GenerateKey(detRand{r.Rng})
+	var k32 [32]byte
+	copy(k32[:], pub)
 	blockedWrites, roSeen := 0, 0
 	r.Tap = func(wr *core.Write) bool {
 		if covered(wr.To.IP) && !wr.Failed {
@@ -220,7 +224,7 @@ func c19(r *Run) {
 	blockedInbound := 0
 	nsteps := ch.Range(15, 70, "steps")
 	for step := 0; step < nsteps && !r.Failed(); step++ {
-		switch ch.Pick([]int{8, 3, 2, 2, 2, 1, 1, 2, 1}, "ev") {
+		switch ch.Pick([]int{8, 3, 3, 2, 2, 1, 1, 2, 1, 2}, "ev") {
 		case 0: // inbound query
 			isBlocked := ch.Chance(1, 2, "in.blocked")
 			src := mkAddr(isBlocked)
@@ -288,9 +292,23 @@ func c19(r *Run) {
 				r.Probe("direct-ping-to-blocked-refused")
 			}
 		case 2: // traversals through a population that lists blocked peers
-			k := ch.Intn(3, "trav.kind")
+			k := ch.Intn(4, "trav.kind")
 			name := fmt.Sprintf("trav%d.%d", step, k)
+			midChange := ch.Chance(1, 3, "trav.midchange")
 			switch k {
+			case 3:
+				salt := []byte(fmt.Sprintf("s%d", step))
+				tg := bep44.MakeMutableTarget(k32, salt)
+				r.Go(name, func() any {
+					ctx, cancel := context.WithTimeout(context.Background(), time.Minute)
+					defer cancel()
+					_, err := getput.Put(ctx, tg, s, salt, func(seq int64) bep44.Put {
+						p := bep44.Put{V: "v", K: &k32, Salt: salt, Seq: seq + 1}
+						p.Sign(priv)
+						return p
+					})
+					return err
+				})
 			case 0:
 				r.Go(name, func() any { _, err := s.Bootstrap(); return err })
 			case 1:
@@ -313,6 +331,22 @@ func c19(r *Run) {
 					_, _, err := getput.Get(ctx, tg, s, nil, nil)
 					return err
 				})
+			}
+			if midChange {
+				// the list changes while the lookup is under way
+				r.PumpUntil(time.Now().Add(time.Duration(20+r.Rng.Intn(300))*time.Millisecond), 2000)
+				if !r.Failed() {
+					r.Settle()
+					r.Route()
+					if len(cur) == len(planned) {
+						cur = nil
+					} else {
+						cur = planned
+					}
+					r.Logf("SetIPBlockList (mid-traversal) ranges=%d", len(cur))
+					r.FaultHit("set-blocklist-mid-traversal")
+					s.SetIPBlockList(toList(cur))
+				}
 			}
 			settleNet(90 * time.Second)
 		case 3: // AddNode
@@ -373,6 +407,39 @@ func c19(r *Run) {
 				}
 				r.Probe("reply-after-block-dropped")
 			}
+		case 9: // a multi-try, unrated query whose destination is blocked between two sends
+			var p *core.Peer
+			for _, x := range pop.Peers {
+				if !covered(x.Addr.IP) {
+					for _, g := range planned {
+						if g.covers(x.Addr.IP) {
+							p = x
+						}
+					}
+				}
+			}
+			if p == nil {
+				continue
+			}
+			r.Settle()
+			r.Route()
+			PS(p).Silent = true
+			rl := dht.QueryRateLimiting{NotAny: ch.Chance(1, 2, "mt.notany"), NotFirst: ch.Chance(1, 2, "mt.notfirst"), WaitOnRetries: ch.Chance(1, 2, "mt.wait")}
+			c := r.Go(fmt.Sprintf("multitry%d", step), func() any {
+				return s.Query(context.Background(), dht.NewAddr(p.Addr), "ping", dht.QueryInput{NumTries: 4, RateLimiting: rl})
+			})
+			r.PumpUntil(time.Now().Add(delay+delay/2), 2000) // first and second send are out
+			if !r.Failed() {
+				r.Settle()
+				r.Route()
+				cur = planned
+				s.SetIPBlockList(toList(cur))
+				r.Logf("blocked %s between resends", p.Addr)
+				r.FaultHit("blocked-between-resends")
+				settleNet(10 * delay)
+				_ = c
+			}
+			PS(p).Silent = false
 		case 8: // unsolicited response from a blocked source
 			src := mkAddr(true)
 			if !covered(src.IP) {
